@@ -329,6 +329,11 @@ def finish(res, module, level='model_checking', exhaustive_ok=True):
             log('HARNESS-ERROR', e[-1500:])
         return 2
     if res.mismatches:
+        try:
+            with open(f'/var/tmp/cct-verif-mismatch-{res.prop}.json', 'w') as f:
+                json.dump(res.mismatches[:50], f, indent=1, default=repr)
+        except Exception:
+            pass
         for mm in res.mismatches[:5]:
             log('ENGINE-MISMATCH', json.dumps(mm, default=repr)[:1500])
         if not new_violations:
